@@ -1,6 +1,7 @@
 //! `mrverif <property> --seed N --tier quick|thorough --model <mrmodel> --corpus <dir> --out <file>`
 //! Runs the correspondence + oracle checks of one property against the real implementation
 //! (linked in-process from /repo with the verification hooks enabled) and writes a JSON report.
+mod c01;
 mod c10;
 mod corpus;
 mod ctx;
@@ -43,6 +44,7 @@ fn main() {
     let t0 = std::time::Instant::now();
     match prop.as_str() {
         "c10" => c10::run(&mut ctx),
+        "c01" => c01::run(&mut ctx),
         other => {
             eprintln!("unknown property {}", other);
             std::process::exit(2);
